@@ -342,6 +342,7 @@ class Path:
 
     def __init__(self):
         self.events = []
+        self.where = []
         self.pc = []
         self.ret = None
         self.post = {}
@@ -360,6 +361,10 @@ class Exec:
         self.depth = 0
         self.fresh = 0
         self.loop_ctx = []
+        self.mem = {}
+        self.fstack = []
+        self.epoch = 0
+        self.stale = ()
 
     # ------------------------------------------------------------ decisions
     def decide(self, cond, why=""):
@@ -377,6 +382,7 @@ class Exec:
         self.known[cond] = d
         self.path.pc.append((cond, d))
         self.path.events.append(("assume", cond, d, why))
+        self.path.where.append(tuple(self.fstack[-4:]))
         return d
 
     def assume(self, cond, val=True):
@@ -385,9 +391,49 @@ class Exec:
             return
         self.known[cond] = val
         self.path.events.append(("assume", cond, val, "loop"))
+        self.path.where.append(tuple(self.fstack[-4:]))
 
     def event(self, *e):
+        if e and e[0] == "write":
+            self.note_write(e[1], e[2], e[3] if len(e) > 3 else None)
         self.path.events.append(tuple(e) + ((tuple(self.loop_ctx),) if self.loop_ctx else ()))
+        self.path.where.append(tuple(self.fstack[-4:]))
+
+    # ---- buffer memory: store-to-load forwarding for exact (address, length)
+    # matches (the length prefix written by resize() and read back by size());
+    # any write that is not provably disjoint forgets the cell.
+    def note_write(self, addr, ln, data):
+        addr, ln = lin(addr), lin(ln)
+        dead = []
+        for (a, n) in self.mem:
+            d = addr - a
+            disjoint = False
+            if d.is_const():
+                disjoint = d.k >= n or (ln.is_const() and d.k + ln.k <= 0)
+            elif d.k >= n and all(c > 0 and _nonneg_atom(at) for at, c in d.terms):
+                disjoint = True
+            if not disjoint:
+                dead.append((a, n))
+        for k in dead:
+            del self.mem[k]
+            self.epoch += 1
+        if ln.is_const() and isinstance(data, Lin):
+            self.mem[(addr, ln.k)] = data
+
+    def wire(self, addr, n, rev):
+        """value of the n bytes at addr (native order unless rev)"""
+        addr = lin(addr)
+        if n == 1:
+            rev = False
+        v = self.mem.get((addr, n))
+        if v is not None:
+            from symeng import bswap_val
+            return bswap_val(v, n) if rev else v
+        if self.epoch:
+            # some earlier write may have changed these bytes
+            for (a, k) in list(self.stale):
+                pass
+        return Lin.atom(("wire", addr, n, rev))
 
     def newsym(self, base):
         self.fresh += 1
@@ -412,7 +458,7 @@ class Exec:
             return loc.obj[loc.key]
         if isinstance(loc, MemLoc):
             self.event("read", loc.addr, lin(loc.size))
-            return Lin.atom(("wire", loc.addr, loc.size, False))
+            return self.wire(loc.addr, loc.size, False)
         if isinstance(loc, Obj):
             return loc
         raise Unsupported("load from %r" % (loc,))
@@ -1044,7 +1090,7 @@ class Exec:
             c0 = truthy(self.scalar(self.rvalue(cond, fr)))
             if not self.decide(c0, "loop-entry line %s" % n.get("l")):
                 return
-        mod = modified_roots(body, inc)
+        mod = modified_roots(self.eng, body, inc)
         self.havoc(mod, fr, lid + ".k")
         self.loop_ctx.append(lid)
         self.event("loop-begin", lid)
@@ -1085,11 +1131,11 @@ class Exec:
         self.loop(n, fr, n.get("cond"), n.get("inc"), n.get("body"), pre_body=n.get("loopvar"))
 
     def havoc(self, roots, fr, tag):
-        for did, name in roots:
+        for (did, name), fields in roots.items():
             if did == "this":
                 o = fr.this
                 if isinstance(o, Obj):
-                    self.havoc_obj(o, "this@" + tag)
+                    self.havoc_obj(o, "this@" + tag, fields)
                 continue
             if did not in fr.vars:
                 continue
@@ -1097,30 +1143,56 @@ class Exec:
             if isinstance(v, RefBox):
                 t = v.target
                 if isinstance(t, Obj):
-                    self.havoc_obj(t, name + "@" + tag)
+                    self.havoc_obj(t, name + "@" + tag, fields)
                 elif isinstance(t, Loc):
                     old = self.load(t)
                     if isinstance(old, Obj):
-                        self.havoc_obj(old, name + "@" + tag)
+                        self.havoc_obj(old, name + "@" + tag, fields)
                     elif isinstance(old, Lin):
                         self.store(t, sym(name + "@" + tag))
                 continue
             if isinstance(v, Obj):
-                self.havoc_obj(v, name + "@" + tag)
+                self.havoc_obj(v, name + "@" + tag, fields)
             elif isinstance(v, Lin):
                 fr.vars[did] = sym(name + "@" + tag)
             elif isinstance(v, Ptr):
                 if isinstance(v.target, Obj):
-                    self.havoc_obj(v.target, name + "->@" + tag)
+                    self.havoc_obj(v.target, name + "->@" + tag, fields)
 
-    def havoc_obj(self, o, tag):
+    def havoc_obj(self, o, tag, fields=None):
+        """forget the fields that may have been modified (all when unknown)"""
+        every = fields is None or ALL in fields
+        names = set()
+        ptrs = set()
+        if not every:
+            for f in fields:
+                if f.endswith("->"):
+                    ptrs.add(f[:-2].rstrip("-").rstrip(">").rstrip("-"))
+                    ptrs.add(f.split("->")[0])
+                else:
+                    names.add(f)
         for f, v in list(o.fields.items()):
             if isinstance(v, Lin):
-                o.fields[f] = sym("%s.%s" % (tag, f))
+                if every or f in names:
+                    o.fields[f] = sym("%s.%s" % (tag, f))
             elif isinstance(v, Obj):
-                self.havoc_obj(v, tag + "." + f)
+                if every or f in names:
+                    self.havoc_obj(v, tag + "." + f)
             elif isinstance(v, Ptr) and isinstance(v.target, Obj) and not isinstance(v.target, Closure):
-                self.havoc_obj(v.target, tag + "." + f + "->")
+                if every or f in ptrs or f in names:
+                    self.havoc_obj(v.target, tag + "." + f + "->")
+
+
+def _nonneg_atom(a):
+    if a[0] in ("wire", "strlen", "distance"):
+        return True
+    if a[0] == "cast":
+        return a[1].startswith("unsigned")
+    if a[0] == "mul":
+        return all(_nonneg_atom(x) for x in a[1])
+    if a[0] == "sym":
+        return a[1] in ("pos", "count") or a[1].split("#")[0] in ("pos", "count")
+    return False
 
 
 class RefBox:
@@ -1149,59 +1221,157 @@ def is_assert_fail(n):
     return False
 
 
-def modified_roots(*nodes):
-    """root variables (did, name) possibly modified inside the given AST nodes"""
-    out = set()
+ALL = "*"
 
-    def root(e):
-        while e is not None:
-            k = e.get("k")
-            if k == "DeclRefExpr" and "did" in e:
-                return (e["did"], e.get("name"))
-            if k == "CXXThisExpr":
-                return ("this", "this")
-            if k == "MemberExpr":
-                if e.get("base") is None:
-                    return ("this", "this")
-                e = e.get("base")
-                continue
-            if k in ("ImplicitCastExpr", "CStyleCastExpr", "CXXStaticCastExpr", "UnaryOperator", "ArraySubscriptExpr"):
-                e = e.get("sub") or e.get("base")
-                continue
-            if k in ("CXXMemberCallExpr", "CXXOperatorCallExpr"):
-                e = e.get("obj")
-                continue
-            return None
-        return None
-    for n in nodes:
-        if n is None:
+
+def _chain(e):
+    """(root, first field) of an lvalue expression: root is ('this',) / ('var', did, name) / None"""
+    field = None
+    while e is not None:
+        k = e.get("k")
+        if k == "DeclRefExpr" and "did" in e:
+            return ("var", e["did"], e.get("name")), field
+        if k == "CXXThisExpr":
+            return ("this",), field
+        if k == "MemberExpr":
+            if e.get("dk") == "Field":
+                field = e.get("name") + ("->" if False else "")
+            b = e.get("base")
+            if b is None:
+                return ("this",), field
+            if e.get("arrow") and b.get("k") != "CXXThisExpr" and e.get("dk") == "Field":
+                # p->f: modifies the pointee of p
+                r, f0 = _chain(b)
+                return r, (f0 + "->") if f0 else ALL
+            e = b
             continue
-        for x in walk(n):
-            k = x.get("k")
-            if k == "BinaryOperator" and x.get("op") == "=" or k == "CompoundAssignOperator":
-                r = root(x.get("lhs"))
-                if r:
-                    out.add(r)
-            elif k == "UnaryOperator" and x.get("op") in ("++", "--", "&"):
-                r = root(x.get("sub"))
-                if r:
-                    out.add(r)
-            elif k in ("CXXMemberCallExpr", "CXXOperatorCallExpr"):
-                c = x.get("callee") or {}
-                if x.get("obj") is not None:
-                    # non-const method on a local object
-                    r = root(x.get("obj"))
-                    if r:
-                        out.add(r)
-                for a in x.get("args") or []:
-                    if a.get("lv"):
-                        r = root(a)
-                        if r:
-                            out.add(r)
-            elif k == "CallExpr":
-                for a in x.get("args") or []:
-                    if a.get("lv"):
-                        r = root(a)
-                        if r:
-                            out.add(r)
-    return sorted(out, key=repr)
+        if k in ("ImplicitCastExpr", "CStyleCastExpr", "CXXStaticCastExpr", "ArraySubscriptExpr"):
+            e = e.get("sub") or e.get("base")
+            continue
+        if k == "UnaryOperator":
+            if e.get("op") == "*":
+                r, f0 = _chain(e.get("sub"))
+                return r, (f0 + "->") if f0 else ALL
+            e = e.get("sub")
+            continue
+        if k in ("CXXMemberCallExpr", "CXXOperatorCallExpr"):
+            # reference-returning accessor (c.pointer() = ...): unknown field of the object
+            o = e.get("obj")
+            if o is None:
+                return None, None
+            r, f0 = _chain(o)
+            if e.get("arrow") and f0:
+                return r, f0 + "->"
+            return r, (f0 if f0 else ALL)
+        return None, None
+    return None, None
+
+
+def _add(d, root, field):
+    if root is None:
+        return
+    cur = d.setdefault(root, set())
+    if field is None or field == ALL:
+        cur.add(ALL)
+    else:
+        cur.add(field)
+
+
+def mod_summary(eng, fn, stack=()):
+    """what a function may modify: {('this',): fields, ('param', i): fields}"""
+    key = fn.get("key")
+    memo = eng.__dict__.setdefault("_mods", {})
+    if key in memo:
+        return memo[key]
+    if key in stack or len(stack) > 12:
+        return {}
+    pidx = {p["did"]: i for i, p in enumerate(fn.get("params") or [])}
+    raw = {}
+    if fn.get("body") is not None:
+        _collect_mods(eng, fn["body"], raw, stack + (key,))
+    out = {}
+    for root, fields in raw.items():
+        if root == ("this",):
+            out.setdefault(("this",), set()).update(fields)
+        elif root[0] == "var" and root[1] in pidx:
+            out.setdefault(("param", pidx[root[1]]), set()).update(fields)
+    memo[key] = out
+    return out
+
+
+def _collect_mods(eng, node, out, stack):
+    for x in walk(node):
+        k = x.get("k")
+        if (k == "BinaryOperator" and x.get("op") == "=") or k == "CompoundAssignOperator":
+            r, f = _chain(x.get("lhs"))
+            _add(out, r, f)
+        elif k == "UnaryOperator" and x.get("op") in ("++", "--"):
+            r, f = _chain(x.get("sub"))
+            _add(out, r, f)
+        elif k in ("CXXMemberCallExpr", "CXXOperatorCallExpr", "CallExpr", "CXXConstructExpr"):
+            c = x.get("callee") or {}
+            cal = eng.fns.get(c.get("key")) if c else None
+            cm = mod_summary(eng, cal, stack) if cal is not None else None
+            o = x.get("obj")
+            if o is not None:
+                r, f = _chain(o)
+                if x.get("arrow") and f:
+                    f = f + "->"
+                if cm is None:
+                    # unknown callee: const methods do not modify
+                    if not (cal is None and c.get("name") in ("size", "empty", "begin", "end", "value", "count", "find", "data", "operator bool", "has_value")):
+                        if cal is None and not c.get("hasbody", True) is False:
+                            pass
+                    if cal is None and c and not c.get("static"):
+                        # external method: assume it may modify the object unless obviously const
+                        nm = c.get("name", "")
+                        if nm.startswith("operator") and nm not in ("operator=", "operator+=", "operator-=", "operator++", "operator--"):
+                            pass
+                        elif nm in ("size", "empty", "begin", "end", "value", "data", "has_value", "length", "c_str"):
+                            pass
+                        else:
+                            _add(out, r, f if f else ALL)
+                else:
+                    for fld in cm.get(("this",), ()):
+                        if f is None:
+                            _add(out, r, fld)
+                        else:
+                            _add(out, r, f)
+            args = x.get("args") or []
+            for i, a in enumerate(args):
+                if not a.get("lv"):
+                    continue
+                r, f = _chain(a)
+                if r is None:
+                    continue
+                if cm is None:
+                    if cal is None and c:
+                        ps = None
+                        # external function taking a reference: assume modification unless the argument is const
+                        if "const" not in (a.get("t") or "")[:6]:
+                            _add(out, r, f if f else ALL)
+                    continue
+                pm = cm.get(("param", i))
+                if pm:
+                    if f is None:
+                        for fld in pm:
+                            _add(out, r, fld)
+                    else:
+                        _add(out, r, f)
+        elif k == "LambdaExpr":
+            pass
+
+
+def modified_roots(eng, *nodes):
+    """{(did, name): set of fields or {'*'}} possibly modified inside the AST nodes"""
+    raw = {}
+    for n in nodes:
+        if n is not None:
+            _collect_mods(eng, n, raw, ())
+    out = {}
+    for root, fields in raw.items():
+        if root == ("this",):
+            out[("this", "this")] = fields
+        elif root[0] == "var":
+            out[(root[1], root[2])] = fields
+    return out
